@@ -210,7 +210,7 @@ def _check_driver(ck, inst, ssite, p, owner, init, ow, nch):
     o2 = gen[5].get("overwrite")
     ck.check(isinstance(o2, VConst) and o2.value is True, "C13.R2", inst + ":chains advanced in place", ssite, "internal chain updates do not use overwrite=True")
     # ---------------- R4 every observable sees the same chain state of the draw; counts advance once per draw
-    sfs = [c for c in it.calls if c[0].endswith("statistics_from_samples") and c[0].split(".")[0] in ("ObservableBase",)]
+    sfs = [c for c in it.calls if c[0] == "ObservableBase.statistics_from_samples"]  # the public entry point itself (a private worker it delegates to is not another evaluation)
     per_draw = len(sfs) // 2 if sfs else 0
     nobs = 1 if owner == "ObservableBase" else 2
     ck.check(per_draw == nobs and len(sfs) == 2 * nobs, "C13.R4", inst + ":each observable once per draw", ssite, "statistics_from_samples is called %d times for %d observables and 2 analysed draws" % (len(sfs), nobs))
